@@ -5,7 +5,7 @@ Require Extraction.
 Require Import ExtrOcamlBasic.
 From Coq Require Import ZArith List.
 From Cedar Require Import Base.Int64 Lang.Value Lang.Expr Impl.Authorize Impl.Like Impl.Eval
-  Impl.Decimal Impl.Duration Impl.Datetime Impl.IPAddr.
+  Impl.Decimal Impl.Duration Impl.Datetime Impl.IPAddr Impl.Fold Impl.PolicySet Impl.HashSet Generated.Tables.
 Extraction Language OCaml.
 Extraction "model.ml"
   Authorize.authorize
@@ -15,4 +15,6 @@ Extraction "model.ml"
   Decimal.parse_decimal Decimal.print_decimal Decimal.new_decimal_exp
   Duration.parse_duration Duration.print_duration
   Datetime.parse_datetime Datetime.print_datetime
-  IPAddr.parse_ip.
+  IPAddr.parse_ip
+  Fold.fold Fold.fold_policy Tables.fold_table
+  PolicySet.run.
